@@ -77,10 +77,18 @@ def map_indexed_(
 
     _mapper_indexed = mapper_indexed or cast(typing.MapperIndexed[_T1, _T2], _identity)
 
-    return source.pipe(
-        ops.zip_with_iterable(infinite()),
-        ops.starmap_indexed(_mapper_indexed),  # type: ignore
-    )
+    def subscribe(
+        observer: abc.ObserverBase[_T2],
+        scheduler: abc.SchedulerBase | None = None,
+    ) -> abc.DisposableBase:
+        # The index generator is per subscription: every subscriber
+        # sees indices starting at 0.
+        return source.pipe(
+            ops.zip_with_iterable(infinite()),
+            ops.starmap_indexed(_mapper_indexed),  # type: ignore
+        ).subscribe(observer, scheduler=scheduler)
+
+    return Observable(subscribe)
 
 
 __all__ = ["map_", "map_indexed_"]
